@@ -100,6 +100,10 @@ Definition gen_of_tag (t : Z) : option gen :=
   | 0 => Some GPy | 1 => Some GNp | 2 => Some GTorch | 3 => Some GActionSpace | 4 => Some (GEnv 0)
   | _ => None
   end.
+Definition tag_of_gen (g : gen) : Z :=
+  match g with GPy => 0 | GNp => 1 | GTorch => 2 | GActionSpace => 3 | GEnv _ => 4 end.
+(* the tag the call-site scan must find at the site(s) that implement consumer c *)
+Definition consumer_tag (c : consumer) : Z := tag_of_gen (consumer_gen c).
 Definition is_seeded (x : st) (g : gen) : bool := match gen_state x g with Seeded _ => true | Unseeded => false end.
 Definition scan_ok (x : st) (tags : list Z) : bool :=
   forallb (fun t => match gen_of_tag t with Some g => is_seeded x g | None => false end) tags.
